@@ -1008,3 +1008,83 @@ pub fn gen_c07(rng: &mut Rng, d: &mut Dist, _idx: u64) -> Vec<String> {
     out.push("OP poll".into());
     out
 }
+
+/// C19: assignment maps over topics whose names sort around each other; explicit lists with duplicates / unsorted /
+/// out-of-range / negative ids; overriding calls; leaderless partitions; then operations on consumed and foreign partitions.
+pub fn gen_c19(rng: &mut Rng, d: &mut Dist, _idx: u64) -> Vec<String> {
+    let mut cl = Cluster::random(rng, 4, true);
+    // more topics so that the sorted table has something to search
+    let pool = ["t", "ta", "tb", "T", "u", "t-1", "t\u{e4}", "a.b", "zz", "t\u{0}", "tab"];
+    while cl.topics.len() < 2 + rng.below(4) as usize {
+        let n = rng.pick(&pool).to_string();
+        if !cl.topics.iter().any(|t| t.name == n) {
+            let np = 1 + rng.below(4) as usize;
+            let nb = cl.brokers.len() as u64;
+            cl.topics.push(Topic { name: n, leaders: (0..np).map(|_| if rng.chance(1, 6) { -1 } else { 1 + rng.below(nb) as i32 }).collect() });
+        }
+    }
+    let mut out = cl.setup_lines();
+    for t in &cl.topics {
+        for p in 0..t.leaders.len() {
+            if t.leaders[p] >= 0 {
+                out.push(format!("APPEND {} {} plain 0 ~ aa 1 ~ bb 2 ~ cc", h(&t.name), p));
+            }
+        }
+    }
+    let ncalls = rng.below(5);
+    let mut opts: Vec<String> = Vec::new();
+    for _ in 0..ncalls {
+        let t = if rng.chance(1, 12) { "ghost".to_string() } else { rng.pick(&cl.topics).name.clone() };
+        let np = cl.topics.iter().find(|x| x.name == t).map(|x| x.leaders.len()).unwrap_or(2) as i64;
+        if rng.chance(1, 2) {
+            bump(d, "assign-topic");
+            opts.push(format!("topic={}", h(&t)));
+        } else {
+            let k = rng.below(5);
+            let mut ps: Vec<i64> = (0..k).map(|_| rng.range(0, np - 1)).collect();
+            if rng.chance(1, 8) {
+                ps.push(*rng.pick(&[np, np + 3, -1, i32::MIN as i64]));
+                bump(d, "assign-out-of-range");
+            }
+            bump(d, if ps.is_empty() { "assign-empty-list" } else { "assign-explicit" });
+            let mut sorted = ps.clone();
+            sorted.sort();
+            sorted.dedup();
+            if sorted.len() != ps.len() {
+                bump(d, "assign-duplicates");
+            }
+            opts.push(format!("tp={}:{}", h(&t), ps.iter().map(|p| p.to_string()).collect::<Vec<_>>().join(",")));
+        }
+    }
+    if ncalls == 0 {
+        bump(d, "assign-nothing");
+    }
+    let group = rng.chance(1, 2);
+    if group {
+        opts.push(format!("group={}", h("grp")));
+        opts.push(format!("storage={}", rng.pick(&["zk", "kafka"])));
+    }
+    opts.push("fallback=earliest".into());
+    out.push(format!("OP consumer_create hosts={} {}", cl.bootstrap(), opts.join(" ")));
+    out.push("OP subscriptions".into());
+    let nops = 3 + rng.below(8);
+    for _ in 0..nops {
+        let t = if rng.chance(1, 10) { "ghost".to_string() } else { rng.pick(&cl.topics).name.clone() };
+        let np = cl.topics.iter().find(|x| x.name == t).map(|x| x.leaders.len()).unwrap_or(2) as i64;
+        let p = if rng.chance(1, 8) { *rng.pick(&[np, -1i64]) } else { rng.range(0, np - 1) };
+        match rng.below(6) {
+            0 | 1 => out.push("OP poll".into()),
+            2 => out.push(format!("OP seek {} {} {}", h(&t), p, rng.below(3))),
+            3 => out.push(format!("OP consume {} {} {}", h(&t), p, rng.below(3))),
+            4 => out.push(format!("OP last_consumed {} {}", h(&t), p)),
+            _ => {
+                if group {
+                    out.push("OP commit".into());
+                } else {
+                    out.push("OP subscriptions".into());
+                }
+            }
+        }
+    }
+    out
+}
